@@ -442,7 +442,7 @@ def run_case(case):
     has_soft = '"soft"' in cjson(class_stmts) or '"soft"' in cjson(inline)     # softs legitimately keep solutions away
     if (case["sel"][0] % 2 == 0 and 2 <= len(sols) <= 24 and len(rf) <= 3 and not has_soft
             and not (case.get("inline") and len(stmts) > len(class_stmts))) \
-            and all((not f["signed"]) and f["kind"] != "enum" for f in rf) and not pred_mixed_sign(case):
+            and all((not f["signed"]) and f["kind"] != "enum" for f in rf):
         R = 1
         for f in rf:
             rg = cap["ranges"].get(f["name"]) or []
